@@ -103,6 +103,12 @@ Definition json_str_dec (lit : str) : option str :=
   | _ => None
   end.
 
+(* json.decoder.scanstring(text, 1) for a text beginning with a double quote: the decoded
+   literal and the text after its closing quote (what every enclosing JSON scanner calls at a key
+   or a string value); None is JSONDecodeError *)
+Definition read_string (z : str) : option (str * str) :=
+  match z with 34 :: b => dec_body b | _ => None end.
+
 (* ---- regex OPENER, lazy any-character group, CLOSER : re.findall + re.sub with the empty string --- *)
 (* first occurrence of needle: text before it, text after it *)
 Fixpoint split_first (needle s : str) : option (str * str) :=
